@@ -336,16 +336,18 @@ Qed.
 Definition batch_static (ba ba' : batch) : Prop :=
   ba_denom ba' = ba_denom ba /\ ba_start ba' = ba_start ba /\ ba_end ba' = ba_end ba /\
   ba_project_key ba' = ba_project_key ba /\ ba_issuer ba' = ba_issuer ba /\
-  ba_issuance ba' = ba_issuance ba /\ (ba_open ba = false -> ba_open ba' = false).
+  ba_issuance ba' = ba_issuance ba /\ (ba_open ba = false -> ba_open ba' = false) /\
+  (ba_open ba = false -> ba_metadata ba' = ba_metadata ba).
 
 Lemma batch_static_refl ba : batch_static ba ba.
 Proof. unfold batch_static. repeat split; auto. Qed.
 
 Lemma batch_static_trans b1 b2 b3 : batch_static b1 b2 -> batch_static b2 b3 -> batch_static b1 b3.
 Proof.
-  intros (A1 & A2 & A3 & A4 & A5 & A6 & A7) (B1 & B2 & B3 & B4 & B5 & B6 & B7). unfold batch_static.
+  intros (A1 & A2 & A3 & A4 & A5 & A6 & A7 & A8) (B1 & B2 & B3 & B4 & B5 & B6 & B7 & B8). unfold batch_static.
   split; [congruence|]. split; [congruence|]. split; [congruence|]. split; [congruence|].
-  split; [congruence|]. split; [congruence|]. auto.
+  split; [congruence|]. split; [congruence|]. split; [auto|].
+  intros Ho. rewrite (B8 (A7 Ho)). apply A8. exact Ho.
 Qed.
 
 Record base_rel (s s' : state) : Prop := {
